@@ -16,67 +16,10 @@ namespace Mila.Props.C18
 open Mila Mila.Asset Mila.Layered BinArchive
 
 /-- The property's quantifier: 32-bit header flags; each spec has its 33 optional strings and
-18 typed fields of four bytes. -/
-abbrev WF (v : AssetBinary) : Prop := BinaryWF v
-
-/-! ### round trip -/
-
-theorem asset_build_ok (v : AssetBinary) (h : WF v) : ∃ a, build v = .ok a := by
-  obtain ⟨a, ha, _, _⟩ := build_layout v h.2
-  exact ⟨a, ha⟩
-
-/-- **Round trip on the un-serialised archive**: header flags and every spec come back, each
-string field exactly, each typed field with its presence flag and — when present — its four bytes
-(bit for bit); a typed field that is not in use comes back as the default (`normalize`). -/
-theorem asset_roundtrip (v : AssetBinary) (h : WF v) :
-    ∃ a, build v = .ok a ∧ fromArchive a = .ok (normalizeBinary v) := by
-  obtain ⟨a, ha, hl, _⟩ := build_layout v h.2
-  exact ⟨a, ha, fromArchive_layout v h a hl⟩
-
-/-- `normalize` is the identity on values whose unused typed fields hold the default. -/
-theorem normalize_id (v : AssetBinary)
-    (h : ∀ s ∈ v.specs, ∀ t ∈ s.vals, t.1 = false → t.2 = zero4) : normalizeBinary v = v := by
-  unfold normalizeBinary
-  have : v.specs.map normalize = v.specs := by
-    have hid : ∀ s ∈ v.specs, normalize s = s := by
-      intro s hs
-      unfold normalize
-      have : Spec.Asset.normalizeVals s.vals = s.vals := by
-        unfold Spec.Asset.normalizeVals
-        have : ∀ t ∈ s.vals, (if t.1 = true then t else (false, [0, 0, 0, 0])) = t := by
-          intro t ht
-          by_cases hu : t.1 = true
-          · simp [hu]
-          · have hf : t.1 = false := by simpa using hu
-            have := h s hs t ht hf
-            rw [if_neg hu]
-            cases t; simp_all [zero4]
-        rw [List.map_congr_left this, List.map_id']
-      rw [this]
-    rw [List.map_congr_left hid, List.map_id']
-  rw [this]
-
-/-- **Layering**: `from_archive` depends only on the archive's content. -/
-theorem asset_layering (v : AssetBinary) (h : WF v) {a b : BinArchive} (ha : build v = .ok a)
-    (hab : SameContent a b) : fromArchive b = fromArchive a := by
-  obtain ⟨a', ha', hl, hp⟩ := build_layout v h.2
-  rw [ha] at ha'
-  cases ha'
-  rw [fromArchive_layout v h b (hl.transfer hp hab), fromArchive_layout v h a hl]
-
-/-- **File-level round trip**, given the bin-archive round trip (property C01) for the archive
-that `serialize` builds. -/
-theorem asset_file_roundtrip (c : Codec) (v : AssetBinary) (h : WF v)
-    (hC01 : ∀ a, build v = .ok a → BinRoundTrip c a) :
-    ∀ bytes, Asset.serialize c v = .ok bytes →
-      ∃ b, BinArchive.parse c .little bytes = .ok b ∧ fromArchive b = .ok (normalizeBinary v) := by
-  intro bytes hs
-  obtain ⟨a, ha, hl, hp⟩ := build_layout v h.2
-  unfold Asset.serialize at hs
-  rw [ha] at hs
-  obtain ⟨b, hb, hab⟩ := hC01 a ha bytes hs
-  rw [hl.little] at hb
-  exact ⟨b, hb, fromArchive_layout v h b (hl.transfer hp hab)⟩
+18 typed fields of four bytes; the data section fits the address space (`usize` = 64 bit). -/
+structure WF (v : AssetBinary) : Prop where
+  wf : BinaryWF v
+  small : Spec.Asset.dataSize (v.specs.map (fun s => (s.strs, s.vals))) < 2 ^ 64
 
 /-! ### short form -/
 
@@ -289,18 +232,12 @@ theorem asset_len (s : AssetSpec) (h : SpecWF s) (a : BinArchive) (cs : List Cel
   · rw [hs, hfl, announced_eq, recordCells_size]
   · rw [hfl]; exact recordLen_eq s h
 
-/-- **Size of the data section**: header flags, the records, the terminator. -/
-theorem asset_size (v : AssetBinary) (h : WF v) {a : BinArchive} (ha : build v = .ok a) :
-    a.size = Spec.Asset.dataSize (v.specs.map (fun s => (s.strs, s.vals))) := by
-  obtain ⟨a', ha', hl, _⟩ := build_layout v h.2
-  rw [ha] at ha'
-  cases ha'
-  rw [hl.size]
+private theorem fileCells_size (v : AssetBinary) (hw : ∀ s ∈ v.specs, SpecWF s) :
+    4 * (fileCells v).length = Spec.Asset.dataSize (v.specs.map (fun s => (s.strs, s.vals))) := by
   unfold Spec.Asset.dataSize
   simp only [fileCells, List.length_append, List.length_cons, List.length_nil, List.map_map]
   have : 4 * (specsCells v.specs).length
       = (v.specs.map ((fun s => Spec.Asset.recordLen s.1 s.2) ∘ fun s => (s.strs, s.vals))).sum := by
-    have hw := h.2
     generalize v.specs = specs at hw
     induction specs with
     | nil => rfl
@@ -313,6 +250,76 @@ theorem asset_size (v : AssetBinary) (h : WF v) {a : BinArchive} (ha : build v =
         rw [← recordCells_size, ← announced_eq, recordLen_eq s hs]
       omega
   omega
+
+private theorem small_cells {v : AssetBinary} (h : WF v) : 4 * (fileCells v).length < 2 ^ 64 := by
+  rw [fileCells_size v h.wf.2]; exact h.small
+
+/-- **Size of the data section**: header flags, the records, the terminator. -/
+theorem asset_size (v : AssetBinary) (h : WF v) {a : BinArchive} (ha : build v = .ok a) :
+    a.size = Spec.Asset.dataSize (v.specs.map (fun s => (s.strs, s.vals))) := by
+  obtain ⟨a', ha', hl, _⟩ := build_layout v h.wf.2 (small_cells h)
+  rw [ha] at ha'
+  cases ha'
+  rw [hl.size, fileCells_size v h.wf.2]
+
+/-! ### round trip -/
+
+theorem asset_build_ok (v : AssetBinary) (h : WF v) : ∃ a, build v = .ok a := by
+  obtain ⟨a, ha, _, _⟩ := build_layout v h.wf.2 (small_cells h)
+  exact ⟨a, ha⟩
+
+/-- **Round trip on the un-serialised archive**: header flags and every spec come back, each
+string field exactly, each typed field with its presence flag and — when present — its four bytes
+(bit for bit); a typed field that is not in use comes back as the default (`normalize`). -/
+theorem asset_roundtrip (v : AssetBinary) (h : WF v) :
+    ∃ a, build v = .ok a ∧ fromArchive a = .ok (normalizeBinary v) := by
+  obtain ⟨a, ha, hl, _⟩ := build_layout v h.wf.2 (small_cells h)
+  exact ⟨a, ha, fromArchive_layout v h.wf a hl⟩
+
+/-- `normalize` is the identity on values whose unused typed fields hold the default. -/
+theorem normalize_id (v : AssetBinary)
+    (h : ∀ s ∈ v.specs, ∀ t ∈ s.vals, t.1 = false → t.2 = zero4) : normalizeBinary v = v := by
+  unfold normalizeBinary
+  have : v.specs.map normalize = v.specs := by
+    have hid : ∀ s ∈ v.specs, normalize s = s := by
+      intro s hs
+      unfold normalize
+      have : Spec.Asset.normalizeVals s.vals = s.vals := by
+        unfold Spec.Asset.normalizeVals
+        have : ∀ t ∈ s.vals, (if t.1 = true then t else (false, [0, 0, 0, 0])) = t := by
+          intro t ht
+          by_cases hu : t.1 = true
+          · simp [hu]
+          · have hf : t.1 = false := by simpa using hu
+            have := h s hs t ht hf
+            rw [if_neg hu]
+            cases t; simp_all [zero4]
+        rw [List.map_congr_left this, List.map_id']
+      rw [this]
+    rw [List.map_congr_left hid, List.map_id']
+  rw [this]
+
+/-- **Layering**: `from_archive` depends only on the archive's content. -/
+theorem asset_layering (v : AssetBinary) (h : WF v) {a b : BinArchive} (ha : build v = .ok a)
+    (hab : SameContent a b) : fromArchive b = fromArchive a := by
+  obtain ⟨a', ha', hl, hp⟩ := build_layout v h.wf.2 (small_cells h)
+  rw [ha] at ha'
+  cases ha'
+  rw [fromArchive_layout v h.wf b (hl.transfer hp hab), fromArchive_layout v h.wf a hl]
+
+/-- **File-level round trip**, given the bin-archive round trip (property C01) for the archive
+that `serialize` builds. -/
+theorem asset_file_roundtrip (c : Codec) (v : AssetBinary) (h : WF v)
+    (hC01 : ∀ a, build v = .ok a → BinRoundTrip c a) :
+    ∀ bytes, Asset.serialize c v = .ok bytes →
+      ∃ b, BinArchive.parse c .little bytes = .ok b ∧ fromArchive b = .ok (normalizeBinary v) := by
+  intro bytes hs
+  obtain ⟨a, ha, hl, hp⟩ := build_layout v h.wf.2 (small_cells h)
+  unfold Asset.serialize at hs
+  rw [ha] at hs
+  obtain ⟨b, hb, hab⟩ := hC01 a ha bytes hs
+  rw [hl.little] at hb
+  exact ⟨b, hb, fromArchive_layout v h.wf b (hl.transfer hp hab)⟩
 
 /-! ### idempotent re-serialisation -/
 
@@ -430,7 +437,7 @@ def sample : AssetBinary :=
 instance (s : AssetSpec) : Decidable (SpecWF s) := by unfold SpecWF; exact inferInstance
 instance (v : AssetBinary) : Decidable (BinaryWF v) := by unfold BinaryWF; exact inferInstance
 
-example : WF sample := by decide +kernel
+example : WF sample := ⟨by decide +kernel, by decide +kernel⟩
 
 example : normalizeBinary sample ≠ sample := by decide +kernel
 
